@@ -93,6 +93,9 @@ func applyTIFFPredictor2(data []byte, params Params) ([]byte, error) {
 	}
 
 	rowSize := columns * colors
+	if columns < 1 || colors < 1 || rowSize < 1 {
+		return nil, fmt.Errorf("invalid predictor geometry: Columns=%d Colors=%d", columns, colors)
+	}
 	if len(data)%rowSize != 0 {
 		return nil, fmt.Errorf("data size %d is not a multiple of row size %d", len(data), rowSize)
 	}
@@ -130,6 +133,9 @@ func applyPNGPredictor(data []byte, predictor int, params Params) ([]byte, error
 	// PNG predictors work on rows with a predictor byte at the start of each row
 	bytesPerPixel := colors
 	rowSize := columns*colors + 1 // +1 for predictor byte
+	if columns < 1 || colors < 1 || rowSize < 2 {
+		return nil, fmt.Errorf("invalid predictor geometry: Columns=%d Colors=%d", columns, colors)
+	}
 
 	if len(data)%rowSize != 0 {
 		return nil, fmt.Errorf("data size %d is not a multiple of row size %d", len(data), rowSize)
